@@ -170,6 +170,20 @@ RECURSIVE SubChain(_)
 SubChain(lv) == IF lv.sub.set THEN <<lv.sub.name>> \o (IF lv.sub.ext THEN <<>> ELSE SubChain(lv.sub.lv)) ELSE <<>>
 ObsSubChain(obs) == LET n == Cardinality({i \in 1..Len(obs.chain) : obs.chain[i].has_sub}) IN [i \in 1..n |-> obs.chain[i].sub]
 
+\* C06, "the command line if it was supplied there": an argument with an occurrence on the level's command line that no
+\* *later command-line occurrence* of an overriding (or overridden-by) argument removes is reported with the command line
+\* as its source - nothing that merely comes from the environment or a default takes it away
+P06Supplied(def, obs, top) ==
+  (obs.outcome = "Ok" /\ ~def.s.ignore_errors) =>
+     LET cs == CmdChain(Build(def, NoInherit), obs.chain, 1) leds == LedChain(top) IN
+     \A i \in 1..Len(cs) : i <= Len(leds) =>
+        LET led == SelectSeq(leds[i], LAMBDA o : o.k = "occ" /\ HasArg(cs[i], o.id)) IN
+        \A p \in 1..Len(led) :
+           LET b == led[p].id
+               removedLater == \E q \in (p + 1)..Len(led) :
+                                  led[q].id # b /\ (b \in SeqToSet(ArgOf(cs[i], led[q].id).overrides) \/ led[q].id \in SeqToSet(ArgOf(cs[i], b).overrides))
+           IN (~removedLater /\ ~ArgOf(cs[i], b).global) => EHas(obs.chain[i], b) /\ EGet(obs.chain[i], b).src = "cli"
+
 \* a level's own matches before globals were copied in: P07 is about the level's own command line
 P07(def, obs, top) ==
   (obs.outcome = "Ok" /\ ~def.s.ignore_errors /\ ~top.err) =>
